@@ -270,6 +270,27 @@ def oracle_a(case):
                     viol.append(V('second-round-trip-differs', **d))
             except Exception as e:
                 viol.append(V('second-round-trip-raised', exc=type(e).__name__, msg=str(e)[:300]))
+    # the same Statechart object, edited through the API and exported again: the second export
+    # describes the edited statechart (nothing may be kept from the first export)
+    if not viol:
+        from sismic.model import Transition
+        try:
+            export_to_yaml(sc)       # export, edit, export again
+            owners = [t.source for t in sc.transitions] or [sc.root]
+            trs = list(sc.transitions)
+            if trs:
+                sc.remove_transition(trs[len(trs) // 2])
+            src = owners[len(owners) // 2]
+            tgt = sorted(sc.states)[len(sc.states) // 2]
+            sc.add_transition(Transition(src, tgt, event='added_after_export'))
+            sc.add_transition(Transition(sc.root, None, event='added_after_export', action='pass'))
+            edited = structure(sc)
+            d = diff_structure(edited, structure(import_from_yaml(export_to_yaml(sc))))
+            if d:
+                viol.append(V('export-after-edit-loses-information', **d))
+            labels['re-export after editing the same object'] = 1
+        except StatechartError:
+            pass      # (the edit itself was not applicable to this chart)
     keys = []
     if any(not plain_scalar(s) for s in strings):
         keys.append(sha(case))
